@@ -455,6 +455,16 @@ def rule_F2(prog):
                                 (unwrap(n["f"]).get("res") or {}).get("path", "").endswith("::new")):
                 ga = (unwrap(c["f"]).get("gargs") or [])
                 ints = [g_.get("n") for g_ in ga if isinstance(g_, dict) and g_.get("k") == "prim"]
+                if not ints and ga and isinstance(ga[0], dict) and ga[0].get("k") == "param":
+                    # the id type is a type parameter of a helper: every explicit instantiation of that helper counts
+                    for body2 in [fn.hir["body"]] + [g2.hir["body"] for g2 in _local_callees(prog, fn)]:
+                        for c2 in find_nodes(body2, lambda n: n["k"] in ("call", "mcall")):
+                            g2, _a = _call_target(prog, c2)
+                            if g2 is None or not g2.hir or c not in find_nodes(g2.hir["body"], lambda n: n is c):
+                                continue
+                            ga2 = (unwrap(c2["f"]).get("gargs") if c2["k"] == "call" else c2.get("gargs")) or []
+                            ints += [g_.get("n") for g_ in ga2 if isinstance(g_, dict) and g_.get("k") == "prim" and
+                                     str(g_.get("n")) in ("u8", "u16", "i8", "i16", "i32")]
                 if ints and ints[0] not in ("u32", "u64", "usize", "u128", "i64", "i128"):
                     problems.append("IdentifyDistinct::<%s>: ids wrap around after %s distinct tokens" % (
                         ints[0], {"u8": "256", "u16": "65536", "i8": "128", "i16": "32768", "i32": "2^31"}.get(ints[0], "few")))
@@ -1412,6 +1422,37 @@ def rule_F8(prog):
         cd, cw = canon(ed), canon(ew)
         ok = cd == cw and len(cd) > 0
         r.ob(ok, "%s: Display events %s ; to_writer events %s" % (head.rsplit("::", 1)[-1], cd, cw))
+        if head.endswith("UnifiedDiffHunk"):
+            # absolute part: what is written for a line depends on that line only (its tag, value, missing_newline) and on
+            # the diff's newline_terminated flag -- never on the line's position in the hunk
+            for label, ev in (("Display", ed), ("to_writer", ew)):
+                bad = []
+                f_ = d if label == "Display" else w
+                # a guard that is a plain local stands for its initialiser (`let nt = self.diff.newline_terminated();`)
+                names = {}
+                for st in find_nodes(f_.hir["body"], lambda n: n.get("k") == "let" and isinstance(n.get("pat"), dict) and
+                                     n["pat"].get("k") == "bind" and n.get("init")):
+                    names[st["pat"].get("name")] = origin(st["init"])
+                # conditions under which *everything* is written (an early return for an empty hunk) say nothing about a line
+                common = set.intersection(*[set(g) for g, _ in ev]) if ev else set()
+                for g, s_ in ev:
+                    if "<HEADER>" in s_:
+                        continue
+                    for x in g:
+                        if x in common:
+                            continue
+                        bare = x.lstrip("!")
+                        x2 = names.get(bare, x)
+                        if ("iter_changes" in x2 and "is #1" in x2) or "newline_terminated" in x2 or "missing_newline" in x2 or \
+                                ("next(" in x2 and "is #1" in x2):
+                            continue
+                        bad.append((x, s_))
+                r.instances += 1
+                r.ob(not bad, "UnifiedDiffHunk %s: per-line output guarded by line-local conditions only: %s" % (label, not bad))
+                if bad:
+                    r.find(f_.path, "line-guard", "UnifiedDiffHunk %s writes %r only under the positional condition `%s`: the "
+                           "newline / missing-newline handling of a line must not depend on where the line sits in the hunk" % (
+                               label, bad[0][1], bad[0][0]), file=f_.file, line=f_.line)
         if head.endswith("UnifiedDiff"):
             # absolute part: the file header is written inside the hunk loop, under header.take() == Some
             for label, ev in (("Display", ed), ("to_writer", ew)):
@@ -2513,6 +2554,148 @@ def rule_F23(prog):
                 r.find(fn.path, "tag-blocks-differ:%s" % tag, "the blocks of ChangesIter::next that yield a %s change differ near "
                        "`%s` vs `%s`: one of them advances the cursors / indices differently" % (
                            tag, a[max(0, i - 50):i + 40], b[max(0, i - 50):i + 40]), file=fn.file, line=other.get("line", fn.line))
+    return r
+
+
+# ---------------------------------------------------------------- F24: a byte cursor advances by the char just consumed
+def rule_F24(prog):
+    r = RuleResult("F24", "a byte cursor of a tokenizer advances by the width of the character consumed in that very iteration: "
+                          "in `end += X.len_utf8()` (possibly through a local) X is bound inside the innermost loop that contains "
+                          "the assignment, not by an enclosing loop (the width of the run's first character is not the width "
+                          "of its later characters)")
+    for fn in prog.user_fns():
+        if not fn.hir or not fn.hir.get("body") or fn.kind == "Closure" or not fn.module.startswith("text"):
+            continue
+        bind_loop = {}       # binding id -> id of the innermost loop at its binding site (None = function level)
+        sites = []           # (assignop node, innermost loop id)
+        lets = _lets(fn)
+
+        def visit(n, loop):
+            if isinstance(n, dict):
+                k = n.get("k")
+                cur = loop
+                if k == "loop":
+                    cur = n.get("id", id(n))
+                if k == "bind":
+                    bind_loop[n["id"]] = cur
+                if k == "assignop" and n.get("op") in ("+=", "+"):
+                    sites.append((n, cur))
+                for kk, v in n.items():
+                    if isinstance(v, (dict, list)) and kk not in ("res", "tyj", "gargs"):
+                        visit(v, cur)
+            elif isinstance(n, list):
+                for x in n:
+                    visit(x, loop)
+        visit(fn.hir["body"], None)
+        for node, loop in sites:
+            rhs = unwrap(node["r"])
+            hops = 0
+            while isinstance(rhs, dict) and rhs.get("k") == "path" and rhs.get("res", {}).get("k") == "local" and \
+                    rhs["res"]["id"] in lets and hops < 4:
+                rhs = unwrap(lets[rhs["res"]["id"]])
+                hops += 1
+            if not (isinstance(rhs, dict) and rhs.get("k") == "mcall" and rhs["name"] in ("len_utf8", "len_utf16")):
+                continue
+            recv = unwrap(rhs["recv"])
+            if not (isinstance(recv, dict) and recv.get("k") == "path" and recv.get("res", {}).get("k") == "local"):
+                continue
+            r.instances += 1
+            bl = bind_loop.get(recv["res"]["id"], "unknown")
+            ok = loop is None or bl == loop
+            r.ob(ok, "%s line %d: `%s` advances by the width of `%s`, bound in %s loop" % (
+                fn.path, node["line"], node.get("src", "")[:50], recv["res"]["name"], "the same" if ok else "an enclosing"))
+            if not ok:
+                r.find(fn.path, "stale-width:%s" % recv["res"]["name"],
+                       "`%s` advances a byte cursor inside an inner loop by the width of `%s`, a character bound by an enclosing "
+                       "loop: later characters of the run may be wider or narrower, the slice boundary then falls inside a "
+                       "character or short of it" % (node.get("src", "")[:60], recv["res"]["name"]), file=fn.file, line=node["line"])
+    return r
+
+
+# ---------------------------------------------------------------- F25: callers of group_diff_ops are plain wrappers
+def rule_F25(prog):
+    r = RuleResult("F25", "every in-crate caller of group_diff_ops hands over its ops and the radius it was given, unchanged, "
+                          "and returns the result on its only path (Capture::into_grouped_ops, TextDiff::grouped_ops, the "
+                          "unified-diff hunk iterator): no caller clamps the radius or short-cuts the grouping")
+    for fn in prog.user_fns():
+        if not fn.hir or not fn.hir.get("body") or fn.kind == "Closure" or fn.spath == "common::group_diff_ops":
+            continue
+        calls = [c for c in find_nodes(fn.hir["body"], lambda n: n["k"] == "call" and origin(n["f"]).endswith("group_diff_ops"))]
+        if not calls:
+            continue
+        lets = _lets(fn)
+        pnames = [pp["pat"].get("name") for pp in fn.hir["params"]]
+        for c in calls:
+            r.instances += 1
+            problems = []
+            if len(c["args"]) != 2:
+                continue
+            rad = origin_deep(c["args"][1], lets)
+            if not (rad in pnames or re.match(r"^self(\.\w+)+$", rad) or re.match(r"^lit:\d+$", rad)):
+                problems.append("the radius passed on is `%s`, not the radius this function was given" % rad)
+            rets = find_nodes(fn.hir["body"], lambda n: n["k"] == "ret", stop=lambda n: n["k"] == "closure")
+            if rets:
+                problems.append("%d early return(s) bypass the grouping" % len(rets))
+            r.ob(not problems, "%s: group_diff_ops(%s, %s)" % (fn.path, origin_deep(c["args"][0], lets)[:40], rad))
+            if problems:
+                r.find(fn.path, "group-wrapper", "%s must hand its ops and its radius to group_diff_ops unchanged: %s" % (
+                    fn.name, "; ".join(problems)), file=fn.file, line=c["line"])
+    return r
+
+
+# ---------------------------------------------------------------- F26: offset bookkeeping of pushed pieces
+def rule_F26(prog):
+    r = RuleResult("F26", "a running byte offset stored next to a text piece advances by that very piece: where a loop pushes "
+                          "`(piece, .., offset)` and the function keeps `offset` with `offset += X.len()`, the advance sits in "
+                          "the same loop as the push and X is the pushed piece")
+    for fn in prog.user_fns():
+        if not fn.hir or not fn.hir.get("body") or fn.kind == "Closure" or not (fn.module.startswith("text") or fn.module == "utils"):
+            continue
+        advances = []      # (cursor id, piece id or None, loop)
+        pushes = []        # (node, loop, [local ids in tuple])
+
+        def visit(n, loop):
+            if isinstance(n, dict):
+                k = n.get("k")
+                cur = n.get("id", id(n)) if k == "loop" else loop
+                if k == "assignop" and n.get("op") in ("+=", "+"):
+                    l = unwrap(n["l"])
+                    rr = unwrap(n["r"])
+                    if isinstance(l, dict) and l.get("k") == "path" and l.get("res", {}).get("k") == "local" and \
+                            isinstance(rr, dict) and rr.get("k") == "mcall" and rr["name"] == "len":
+                        rc = unwrap(rr["recv"])
+                        pid = rc["res"]["id"] if isinstance(rc, dict) and rc.get("k") == "path" and rc.get("res", {}).get("k") == "local" else None
+                        advances.append((l["res"]["id"], pid, cur))
+                if k == "mcall" and n["name"] == "push" and n["args"]:
+                    a = unwrap(n["args"][0])
+                    if isinstance(a, dict) and a.get("k") == "tup":
+                        ids = []
+                        for x in a["es"]:
+                            x = unwrap(x)
+                            if isinstance(x, dict) and x.get("k") == "path" and x.get("res", {}).get("k") == "local":
+                                ids.append(x["res"]["id"])
+                        pushes.append((n, cur, ids))
+                for kk, v in n.items():
+                    if isinstance(v, (dict, list)) and kk not in ("res", "tyj", "gargs"):
+                        visit(v, cur)
+            elif isinstance(n, list):
+                for x in n:
+                    visit(x, loop)
+        visit(fn.hir["body"], None)
+        cursors = {c for c, _, _ in advances}
+        for node, loop, ids in pushes:
+            cs = [i for i in ids if i in cursors]
+            if not cs or loop is None:
+                continue
+            c = cs[0]
+            r.instances += 1
+            ok = any(ac == c and al == loop and ap in ids for ac, ap, al in advances)
+            r.ob(ok, "%s line %d: `%s`: offset advanced by the pushed piece in the same loop: %s" % (
+                fn.path, node["line"], node.get("src", "")[:50], ok))
+            if not ok:
+                r.find(fn.path, "offset-bookkeeping", "`%s` stores a running offset with a piece, but the loop that pushes does not "
+                       "advance the offset by that piece's length: all pieces pushed by this loop carry the same offset" % (
+                           node.get("src", "")[:70]), file=fn.file, line=node["line"])
     return r
 
 
